@@ -783,3 +783,58 @@ func (p *Prog) RequestTimeReach() map[*ssa.Function]bool {
 	p.memo["rtreach"] = r
 	return r
 }
+
+// UseVTAEdges replaces the module call edges by those of the VTA call graph
+// (thorough tier): interface invokes and function values are resolved by
+// variable-type analysis instead of class hierarchy / signature matching.
+func (p *Prog) UseVTAEdges() {
+	if p.vtaCG == nil {
+		p.BuildVTA()
+	}
+	p.callees = map[*ssa.Function][]*Edge{}
+	p.callers = map[*ssa.Function][]*Edge{}
+	p.memo = map[string]any{}
+	p.UseVTA = true
+	inMod := map[*ssa.Function]bool{}
+	for _, fn := range p.AllMod {
+		inMod[fn] = true
+	}
+	for _, fn := range p.AllMod {
+		n := p.vtaCG.Nodes[fn]
+		if n == nil {
+			continue
+		}
+		seen := map[string]bool{}
+		for _, e := range n.Out {
+			callee := e.Callee.Func
+			if callee == nil {
+				continue
+			}
+			callee = p.unwrap(callee)
+			if callee == nil || !inMod[callee] || e.Site == nil {
+				continue
+			}
+			k := fmt.Sprintf("%p|%p", e.Site, callee)
+			if seen[k] {
+				continue
+			}
+			seen[k] = true
+			cc := e.Site.Common()
+			ed := &Edge{Caller: fn, Site: e.Site, Callee: callee, Kind: "static"}
+			switch {
+			case cc.IsInvoke():
+				ed.Kind = "invoke"
+				ed.StdIface = true
+				if nt, ok := cc.Value.Type().(*types.Named); ok && nt.Obj().Pkg() != nil {
+					if _, ok := p.ModPkgs[nt.Obj().Pkg()]; ok {
+						ed.StdIface = false
+					}
+				}
+			case cc.StaticCallee() == nil:
+				ed.Kind = "dynamic"
+			}
+			p.callees[fn] = append(p.callees[fn], ed)
+			p.callers[callee] = append(p.callers[callee], ed)
+		}
+	}
+}
